@@ -624,6 +624,53 @@ func (x *Exec) trCall(env *Env, e ECall) Val {
 			env.st.assume(f)
 		}
 		return v
+	case "nodep":
+		// nodep(E): neither the path condition nor anything the middleware
+		// emitted (response-header map, string elements, event arguments)
+		// mentions the term E -- a syntactic non-interference check, sound for
+		// the loop-free handler paths
+		v := x.tr(env, e.Args[0])
+		st := env.st
+		var texts []string
+		for _, f := range st.pc {
+			texts = append(texts, f.S)
+		}
+		hs := st.heaps
+		if st.atServe != nil {
+			hs = st.atServe
+		}
+		for _, hn := range []string{"MP!", "MV!", "E!Str"} {
+			if t, ok := hs[hn]; ok {
+				texts = append(texts, t.S)
+			}
+		}
+		for _, ev := range st.events {
+			for _, a := range ev.Args {
+				texts = append(texts, a.T.S)
+			}
+		}
+		seen := map[string]bool{}
+		dep := false
+		for len(texts) > 0 && !dep {
+			t := texts[len(texts)-1]
+			texts = texts[:len(texts)-1]
+			if strings.Contains(t, v.T.S) {
+				dep = true
+				break
+			}
+			tk := map[string]bool{}
+			tokensOf(t, tk)
+			for k := range tk {
+				if strings.HasPrefix(k, "d!") && !seen[k] {
+					seen[k] = true
+					texts = append(texts, x.axioms[k]...)
+				}
+			}
+		}
+		return Val{T: Bool(!dep), Ty: tyBool}
+	case "brk":
+		x.declare("brk!", SInt)
+		return Val{T: Term{"brk!", SInt}, Ty: tyInt}
 	case "streq":
 		as := args()
 		return Val{T: x.strEq(as[0].T, as[1].T), Ty: tyBool}
